@@ -1,6 +1,7 @@
 /-
-  `get_tokens_starting_with_token_and_ending_with_one_of_possible_tokens` (WP3): a slice whenever the
-  region holds anything but whitespace / line breaks / comments.
+  `get_tokens_starting_with_token_and_ending_with_one_of_possible_tokens` (WP3): always a slice (an
+  empty one, at the position after the trimmed tokens, when the region holds nothing but whitespace /
+  line breaks / comments — since the repair of the two trimming helpers).
 -/
 import VsgModel.Engine.Extract5
 import VsgProofs.Lemmas.Extract3If
@@ -10,36 +11,11 @@ open Vsgm Vsgm.TM Vsgm.TM.Lemmas Vsgm.TM.X
 variable {α : Type}
 
 theorem trimmed_exact (V : View α) (P : PCls) (f : List α) (s : Nat) (sl : List α) (line : Nat)
-    (hsl : SliceAt f s sl)
-    (hg : ∃ x ∈ removeTrailing V P (removeLeading V P s sl).2, isWsOrComment V P x = false) :
+    (hsl : SliceAt f s sl) :
     Toi.Exact f ({ start := some ((removeLeading V P s sl).1 - 1), line := line,
                    toks := removeTrailing V P (removeLeading V P s sl).2 } : Toi α) := by
-  unfold removeLeading at hg ⊢
-  cases hf : sl.findIdx? (fun t => !isWsOrComment V P t) with
-  | some k =>
-    simp only [hf] at hg ⊢
-    have hk : k < sl.length := (List.findIdx?_eq_some_iff_findIdx_eq.mp hf).1
-    have hd := sliceAt_drop f s k sl hsl (Nat.le_of_lt hk)
-    refine exact_of_sliceAt f _ (s + k) (by simp <;> omega) ?_
-    exact removeTrailing_slice V P f _ _ hd hg
-  | none =>
-    simp only [hf] at hg
-    exfalso
-    obtain ⟨x, hxm, hxw⟩ := hg
-    rw [List.findIdx?_eq_none_iff] at hf
-    have hall : ∀ y ∈ sl, isWsOrComment V P y = true := by
-      intro y hy; have := hf y hy; simpa using this
-    unfold removeTrailing at hxm
-    cases hf2 : sl.reverse.findIdx? (fun t => !isWsOrComment V P t) with
-    | some k' =>
-      simp only [hf2] at hxm
-      rw [List.drop_reverse, List.reverse_reverse] at hxm
-      have := hall x (List.mem_of_mem_take hxm)
-      rw [this] at hxw; cases hxw
-    | none =>
-      simp only [hf2] at hxm
-      have := hall x (List.mem_reverse.mp hxm)
-      rw [this] at hxw; cases hxw
+  obtain ⟨k, _, h1, h2⟩ := trimmed_slice V P f s sl (s : Int) hsl
+  exact exact_of_sliceAt f _ (s + k) (by simp only [h1]; congr 1; omega) h2
 
 theorem seStarts_le (uid : α → Option Key) (f : List α) (startCs endCs : List Cls) (inclStart : Bool) :
     ∀ sn ∈ seStarts (processTokens uid f) startCs endCs inclStart, sn.1 ≤ f.length := by
@@ -52,11 +28,11 @@ theorem seStarts_le (uid : α → Option Key) (f : List α) (startCs endCs : Lis
     have := fresh_idxsOfList_lt uid f startCs i hi
     omega
 
-theorem startingEnding_exact_partial (V : View α) (P : PCls) (f : List α) (startCs endCs : List Cls)
+theorem startingEnding_exact (V : View α) (P : PCls) (f : List α) (startCs endCs : List Cls)
     (inclStart inclEnd earliest : Bool) (r : List (Toi α))
     (h : startingEnding V P f (processTokens V.uid f) startCs endCs inclStart inclEnd earliest = .ok r) :
-    ∀ t ∈ r, (∃ x ∈ t.toks, isWsOrComment V P x = false) → t.Exact f := by
-  intro t ht hg
+    ∀ t ∈ r, t.Exact f := by
+  intro t ht
   unfold startingEnding at h
   obtain ⟨sn, hsn, hb⟩ := mem_filterMapE _ _ _ h t ht
   have hle := seStarts_le V.uid f startCs endCs inclStart sn hsn
@@ -65,7 +41,7 @@ theorem startingEnding_exact_partial (V : View α) (P : PCls) (f : List α) (sta
   · rename_i e _
     simp only [bind_ok, pure_ok, Option.some.injEq] at hb
     obtain ⟨line, _, rfl⟩ := hb
-    refine trimmed_exact V P f sn.1 _ line ?_ hg
+    refine trimmed_exact V P f sn.1 _ line ?_
     split <;> exact sliceAt_pySlice f sn.1 _ hle
 
 end Vsgm.TM.X.Lemmas
